@@ -138,6 +138,7 @@ class SymArray(np.ndarray):
                 ins.append(x)
         kw.pop("dtype", None)
         kw.pop("casting", None)
+        kw.pop("subok", None)
         if method == "__call__":
             where = kw.pop("where", True)
             if where is not True:
@@ -161,7 +162,15 @@ class SymArray(np.ndarray):
             keepdims = kw.pop("keepdims", False)
             kw.pop("initial", None)
             (a,) = ins
-            res = f.reduce(a, axis=axis, keepdims=keepdims)
+            if axis is None:
+                axis = tuple(range(np.ndim(a)))
+            if isinstance(axis, tuple):
+                # object ufuncs reduce one axis at a time: highest axis first (order is immaterial in exact arithmetic)
+                res = a
+                for ax in sorted((x % np.ndim(a) for x in axis), reverse=True):
+                    res = f.reduce(res, axis=ax, keepdims=keepdims)
+            else:
+                res = f.reduce(a, axis=axis, keepdims=keepdims)
             if out is not None:
                 (o,) = out
                 o[...] = res
@@ -224,10 +233,10 @@ def _sum_all(a):
     return acc
 
 
-def _np_sum(a, axis=None, **kw):
-    if axis is None:
+def _np_sum(a, axis=None, keepdims=False, **kw):
+    if axis is None and not keepdims:
         return _sum_all(a)
-    return np.add.reduce(a if isinstance(a, SymArray) else sym_view(a), axis=axis)
+    return np.add.reduce(a if isinstance(a, SymArray) else sym_view(a), axis=axis, keepdims=keepdims)
 
 
 def _np_amax(a, axis=None, initial=None, **kw):
